@@ -247,6 +247,12 @@ pub fn build(
                 };
 
                 let ident = (ident.0 != "_").then(|| ident.0.clone());
+                if ident.is_some() && pending_regions.iter().any(|(_, r)| r.name == ident) {
+                    anyhow::bail!(
+                        "type `{resolvee_path}` has more than one field called `{}`",
+                        ident.as_deref().unwrap_or_default()
+                    );
+                }
                 pending_regions.push((
                     address,
                     Region {
